@@ -218,7 +218,10 @@ def build_key(spec, arr, D, OF):
             else:
                 lst = [d.items[i] for i in v[1]]
                 lf = spec.get("list_form", "list")
-                key[k] = lst if lf == "list" else (tuple(lst) if lf == "tuple" else np.array(lst, dtype=object if any(isinstance(x, str) for x in lst) else None))
+                if lf == "iterator":
+                    key[k] = iter(lst)  # a generator / filter / map object: any Iterable is accepted as a list of items
+                else:
+                    key[k] = lst if lf == "list" else (tuple(lst) if lf == "tuple" else np.array(lst, dtype=object if any(isinstance(x, str) for x in lst) else None))
         info.key = key
     f1 = spec.get("f1")
     if f1 == "unknown_item":
